@@ -80,15 +80,15 @@ Definition pre (g : geo) (o : op) : Prop :=
   | IdentifyNbrs | SetNumLayers _ | SetupBlockNames | SetupConnNames => True
   | SplitCol _ _ => True                                  (* see [pre]: a real split is covered in the repaired source *)
   | AddCol n _ _ _ => col_derived_ok g n                  (* no layer yet *)
-  | DelCol _ => fx_nbr (fx g) = false /\ llist g = []
+  | DelCol _ => llist g = []
   | AddConn a b => conn_derived_ok g a b                  (* already neighbours (or repaired source); no layer yet *)
-  | DelConn a b => fx_nbr (fx g) = false /\ joined_otherwise g (a, b) /\ llist g = []
+  | DelConn a b => (fx_nbr (fx g) = true \/ joined_otherwise g (a, b)) /\ llist g = []   (* (source as it stands:) still joined otherwise *)
   | AddLayer _ _ _ _ | DelLayer _ | LayerTops | DefaultSurface => no_dependants g
   | SetSurface _ _ => llist g = []
-  | CopyLayers _ | RefineLayers _ _ | MoveNodes _ _ => True
-  (* kept only up to the clauses named in InvCompound.v (layer counts after a snap; elevations after a translation;
-     neighbour sets after a repair in the source as it stands) *)
-  | CheckFix _ _ | Reduce _ _ _ | SnapLayers _ _ | SnapNearest _ | Translate _ _ _ => False
+  | CopyLayers _ | RefineLayers _ _ | MoveNodes _ _ | Translate _ _ _ => True
+  (* kept only up to the clauses named in InvCompound.v (layer counts after a snap; neighbour sets after a repair in the
+     source as it stands; reduce on a valid mesh: reduce_inv_clean) *)
+  | CheckFix _ _ | Reduce _ _ _ | SnapLayers _ _ | SnapNearest _ => False
   | Refine _ _ | Triangulate _ | DecomposeCols _ _ _ => False
   end.
 
@@ -98,9 +98,9 @@ Proof.
   - inversion H; subst. apply add_node_inv; exact I.
   - eapply delete_node_inv; eauto.
   - eapply add_column_inv; eauto.
-  - destruct P. eapply delete_column_inv; eauto.
+  - eapply delete_column_inv_any; eauto.
   - eapply add_connection_inv; eauto.
-  - destruct P as [P' [P'' P''']]. eapply delete_connection_inv; eauto.
+  - destruct P. eapply delete_connection_inv_any; eauto.
   - inversion H; subst. apply add_layer_inv; assumption.
   - eapply delete_layer_inv; eauto.
   - inversion H; subst. apply add_well_inv; exact I.
@@ -120,7 +120,8 @@ Proof.
   - destruct P. - destruct P. - destruct PS. - destruct PS. - destruct PS.
   - eapply refine_layers_inv; eauto.
   - eapply copy_layers_from_inv; eauto.
-  - destruct P. - destruct P. - destruct P.
+  - destruct P. - destruct P.
+  - inversion H; subst. apply translate_inv; exact I.
   - eapply move_nodes_inv; eauto.
 Qed.
 
